@@ -130,6 +130,7 @@ def run(rep, model, tier, seed):
                 rep.disagree("level pipe-0 addresses", {}, "one shared address per level, distinct", str(lv)[:200],
                              "C04/level-address")
             net.allow_multicast = True
+            level_addr = {L: next(iter(lv[L])) for L in lv}
             for L in range(5):
                 got = bytes(net._pipe_address(_lvl_2_addr(L), 0))
                 if got != next(iter(lv[L])):
@@ -279,6 +280,26 @@ def run(rep, model, tier, seed):
                 key = "C04/hop-address-not-listened-by-next-hop"
             rep.disagree("TX_ADDR of first transmission", {"src": oct(s), "dst": oct(d)}, want.hex(),
                          got.hex() if got else None, key)
+    # ... and of multicast(): every node, every level (explicitly, and through the multicast_level override)
+    for s_ in nodes:
+        net._begin(s_)
+        own = net._net_lvl
+        for L in range(5):
+            for how in ("arg", "override"):
+                if how == "override":
+                    net._net_lvl = L          # what `multicast_level = L` stores
+                spi.tx_addr_log.clear()
+                spi.tx.clear()
+                net.multicast(b"x", 1, L if how == "arg" else None)
+                net._net_lvl = own
+                got = spi.tx_addr_log[0] if spi.tx_addr_log else None
+                rep.seen(("mc", s_, L, how))
+                rep.count("multicast_tx_addr")
+                rep.evaluations += 1
+                if got != level_addr[L]:
+                    rep.disagree("TX_ADDR of multicast()", {"node": oct(s_), "level": L, "level_given_by": how},
+                                 level_addr[L].hex(), got.hex() if got else None, "C04/multicast-not-sent-to-level-address")
+    rep.exhaustive.append("TX_ADDR of multicast() for all 781 nodes x 5 levels, level as argument and as multicast_level")
     if tier != "quick":
         rep.exhaustive.append("TX_ADDR of write() for all 781x780 pairs")
     else:
